@@ -145,24 +145,18 @@ func buildUnits(r *vk.Run) []unit {
 	five := []kind{kVotePeer, kPartSmall, kTimeout, kStep, kEndHeight}
 	if *partFlag == "all" || *partFlag == "histories" {
 		if r.Quick() {
+			us = append(us, historyUnits("oversize", 3, 12e-3)...)
 			us = append(us, historyUnits("full", 4, 2e-3)...)
 			us = append(us, historyUnits("core", 5, 2e-3)...)
-			us = append(us, historyUnits("oversize", 3, 12e-3)...)
 		} else {
+			us = append(us, historyUnits("oversize", 4, 12e-3)...)
 			us = append(us, historyUnits("full", 5, 2e-3)...)
 			us = append(us, historyUnits("core", 7, 2e-3)...)
-			us = append(us, historyUnits("oversize", 4, 12e-3)...)
 		}
 	}
 	if *partFlag == "all" || *partFlag == "damage" {
 		us = append(us, imageUnits("damage/all-kinds/1-record", small, 1)...)
 		us = append(us, imageUnits("damage/all-kinds/2-records", small, 2)...)
-		if r.Quick() {
-			us = append(us, imageUnits("damage/4-kinds/3-records", four, 3)...)
-		} else {
-			us = append(us, imageUnits("damage/all-kinds/3-records", small, 3)...)
-			us = append(us, imageUnits("damage/5-kinds/4-records", five, 4)...)
-		}
 		// images with buffer overflow: unsynced 32 KiB parts fill the 40 KiB head buffer, bufio flushes a record
 		// in two pieces, and a tick falls in between
 		g := "damage/scripted-large"
@@ -173,6 +167,12 @@ func buildUnits(r *vk.Run) []unit {
 			us = append(us, scripted(g, 99000, wr(kPart32k), sy(kEndHeight), tickCode, wr(kPart32k), wr(kPart32k), tickCode, sy(kEndHeight))...)
 			us = append(us, scripted(g, 46000, wr(kPart45k), sy(kEndHeight), tickCode, wr(kTimeout))...)
 			us = append(us, scripted(g, 66000, sy(kEndHeight), tickCode, wr(kPart32k), wr(kStep), wr(kPart32k), tickCode, sy(kEndHeight), tickCode)...)
+		}
+		if r.Quick() {
+			us = append(us, imageUnits("damage/4-kinds/3-records", four, 3)...)
+		} else {
+			us = append(us, imageUnits("damage/all-kinds/3-records", small, 3)...)
+			us = append(us, imageUnits("damage/5-kinds/4-records", five, 4)...)
 		}
 	}
 	for i := range us {
